@@ -614,7 +614,7 @@ def run_job(job):
 
 def describe():
     return dict(
-        rule=("Hypothesis-generated scenarios (chain class, 1-6 chains, temperature ladder, op list over take_steps/"
+        rule=("Hypothesis-generated scenarios (chain class, 1-10 chains, temperature ladder incl. unsorted ones, chains starting at log-density -inf, single commands of 501-1501 steps, op list over take_steps/"
               "swap/advance/run_for/return_chains, fault switches, scheduler seeds); each scenario is executed under the "
               "canonical schedule and 1-2 seeded fault schedules. Non-trivial = at least 2 chains, at least one step, at "
               "least one proposed exchange and at least two distinct event logs; distinct = distinct scenario digest."),
